@@ -11,8 +11,10 @@ import (
 	"fmt"
 	"math"
 	"path/filepath"
+	"sort"
 	"strconv"
 	"strings"
+	"time"
 
 	"rare/pkg/expressions/stdlib"
 	. "verifh/lib"
@@ -28,7 +30,9 @@ type c11In struct {
 	Args []c11Arg `json:"args"`
 }
 type c11Out struct {
+	Outcome  string `json:"outcome"` // ok | panic | hang (did not return within c11CallLimit)
 	Panic    bool   `json:"panic"`
+	Hang     bool   `json:"hang,omitempty"`
 	Out      string `json:"out_hex"`
 	Text     string `json:"out_text,omitempty"`
 	Note     string `json:"note,omitempty"`
@@ -94,23 +98,71 @@ func c11Template(in c11In) (string, []string) {
 	return sb.String(), groups
 }
 
+// every call is evaluated on its own goroutine with a time limit: no helper of the property may
+// panic or fail to return, and a helper that spins must not take the harness with it
+const c11CallLimit = 2 * time.Second
+
+// argument class of a call, used to stop evaluating a family of inputs after one of them hung (the hung
+// goroutine keeps spinning until the harness exits): helper, arity, and per argument the sign and
+// digit count of an integer text, or "s" for anything else
+func c11Class(in c11In) string {
+	var sb strings.Builder
+	fmt.Fprintf(&sb, "%s/%d", in.Fn, len(in.Args))
+	for _, a := range in.Args {
+		v := unhex(a.Val)
+		if _, err := strconv.ParseInt(v, 10, 64); err == nil {
+			sign := "+"
+			if strings.HasPrefix(v, "-") {
+				sign = "-"
+			}
+			fmt.Fprintf(&sb, ":%s%d", sign, len(strings.TrimLeft(v, "+-")))
+		} else {
+			sb.WriteString(":s")
+		}
+	}
+	return sb.String()
+}
+
+var c11Hung = map[string]bool{}   // argument classes that hung
+var c11HungFn = map[string]int{}  // hangs per helper
+const c11MaxHangsPerHelper = 3
+
+// c11Skip: a call of this class (or of a helper that hung too often) is not evaluated any more
+func c11Skip(in c11In) bool {
+	return c11Hung[c11Class(in)] || c11HungFn[in.Fn] >= c11MaxHangsPerHelper
+}
+
 func c11Run(in c11In) (out c11Out) {
 	tpl, groups := c11Template(in)
-	out.Template = tpl
-	defer func() {
-		if e := recover(); e != nil {
-			out.Panic, out.Out, out.Text, out.Note = true, "", "", fmt.Sprint(e)
+	var s string
+	compiled := true
+	outcome, pv := Guarded(c11CallLimit, func() {
+		kb, _ := stdlib.NewStdKeyBuilder().Compile(tpl)
+		if kb == nil {
+			compiled = false
+			return
 		}
-	}()
-	kb, _ := stdlib.NewStdKeyBuilder().Compile(tpl)
-	if kb == nil {
-		out.Note = "Compile returned nil"
+		s = kb.BuildKey(&c11Ctx{groups})
+	})
+	out.Template = tpl
+	out.Outcome = outcome
+	switch {
+	case outcome == "hang":
+		out.Hang = true
+		out.Note = fmt.Sprintf("did not return within %v", c11CallLimit)
+		c11Hung[c11Class(in)] = true
+		c11HungFn[in.Fn]++
+	case outcome == "panic":
 		out.Panic = true
-		return
+		out.Note = fmt.Sprint(pv)
+	case !compiled:
+		out.Outcome = "panic"
+		out.Panic = true
+		out.Note = "Compile returned nil"
+	default:
+		out.Out = hex.EncodeToString([]byte(s))
+		out.Text = strconv.QuoteToASCII(s)
 	}
-	s := kb.BuildKey(&c11Ctx{groups})
-	out.Out = hex.EncodeToString([]byte(s))
-	out.Text = strconv.QuoteToASCII(s)
 	return
 }
 
@@ -207,6 +259,9 @@ func funOracle(op func(float64) float64) func(v []string) string {
 		return strconv.FormatFloat(op(x), 'f', -1, 64)
 	}
 }
+// precision arguments beyond this are rejected by the helpers (maxPrecision); the oracles never format them
+const c11MaxPrecision = 1100
+
 func roundOracle(v []string) string {
 	if len(v) < 1 || len(v) > 2 {
 		return ""
@@ -215,6 +270,9 @@ func roundOracle(v []string) string {
 	if len(v) == 2 {
 		p, err := strconv.Atoi(v[1])
 		if err != nil {
+			return ""
+		}
+		if p > c11MaxPrecision {
 			return ""
 		}
 		prec = p
@@ -236,7 +294,10 @@ func unitOracle(unsigned bool, step float64, nunits int) func(v []string) string
 			if err != nil {
 				return ""
 			}
-			prec = p
+			if p > c11MaxPrecision {
+			return ""
+		}
+		prec = p
 		}
 		var nf float64
 		if unsigned {
@@ -268,6 +329,9 @@ func percentOracle(v []string) string {
 	if len(v) >= 2 {
 		d, err := strconv.Atoi(v[1])
 		if err != nil {
+			return ""
+		}
+		if d > c11MaxPrecision {
 			return ""
 		}
 		dec = d
@@ -649,7 +713,7 @@ func genUnitArgs(unsigned bool) func(r *Rng) []c11Arg {
 			return argsOf(r, 50, gv(r))
 		}
 		a := argsOf(r, 50, gv(r))
-		return append(a, mkArg(r, Pick(r, []string{"0", "1", "2", "3", "5", "-1", "x", ""}), 92))
+		return append(a, mkArg(r, Pick(r, []string{"0", "1", "2", "3", "5", "-1", "x", "", "1100", "1101", "9223372036854775807"}), 92))
 	}
 }
 
@@ -762,7 +826,7 @@ func init() {
 			if r.Chance(1, 2) {
 				return argsOf(r, 50, genFloat(r))
 			}
-			return []c11Arg{mkArg(r, genFloat(r), 50), mkArg(r, Pick(r, []string{"0", "1", "2", "4", "10", "-1", "x", "", "1.5"}), 92)}
+			return []c11Arg{mkArg(r, genFloat(r), 50), mkArg(r, Pick(r, []string{"0", "1", "2", "4", "10", "-1", "x", "", "1.5", "1100", "1101", "4611686018427387904"}), 92)}
 		}},
 		{name: "if", coq: "If", floats: noFloat, gen: truthArgs(2, 3)},
 		{name: "switch", coq: "Switch", floats: noFloat, gen: truthArgs(2, 6)},
@@ -849,7 +913,7 @@ func init() {
 			n := r.Range(1, 4)
 			a := []c11Arg{mkArg(r, genFloat(r), 50)}
 			if n >= 2 {
-				a = append(a, mkArg(r, Pick(r, []string{"0", "1", "2", "3", "x", ""}), 92))
+				a = append(a, mkArg(r, Pick(r, []string{"0", "1", "2", "3", "x", "", "1100", "1101", "100000000000"}), 92))
 			}
 			for i := 2; i < n; i++ {
 				a = append(a, mkArg(r, Pick(r, []string{"0", "1", "10", "100", "-5", "2.5", "1e3", "abc", "0"}), 50))
@@ -940,9 +1004,11 @@ func c11Case(in c11In) Case {
 			orc = sp.oracle(vals)
 		}()
 	}
-	obs := "oP"
-	if !out.Panic {
-		obs = "(oO \"" + out.Out + "\")"
+	obs := "(oO \"" + out.Out + "\")"
+	if out.Hang {
+		obs = "oH"
+	} else if out.Panic {
+		obs = "oP"
 	}
 	coq := fmt.Sprintf("c %s %s %s %s", sp.coq, CoqList(parts), HS(orc), obs)
 	tags := []string{"fn=" + in.Fn, fmt.Sprintf("arity=%d", len(in.Args))}
@@ -954,6 +1020,9 @@ func c11Case(in c11In) Case {
 	}
 	if out.Panic {
 		tags = append(tags, "impl-panic")
+	}
+	if out.Hang {
+		tags = append(tags, "impl-hang")
 	}
 	o := unhex(out.Out)
 	marker := strings.HasPrefix(o, "<") && strings.HasSuffix(o, ">")
@@ -993,22 +1062,38 @@ func c11Sweep(r *Rng) []Case {
 	ka := func(v string, c bool) c11Arg {
 		return c11Arg{Const: c && constSafe(v), Val: hex.EncodeToString([]byte(v)), Text: strconv.QuoteToASCII(v)}
 	}
+	// a call is evaluated unless its argument class already hung (see c11Skip)
+	add := func(in c11In) {
+		if !c11Skip(in) {
+			cs = append(cs, c11Case(in))
+		}
+	}
+	// boundary values by increasing magnitude: the int64 extremes come last, so that a helper that
+	// hangs on them does not hide wrong values on the 19-digit inputs just below
+	sorted := append([]string(nil), intBoundaries...)
+	mag := func(s string) float64 { f, _ := strconv.ParseFloat(s, 64); return math.Abs(f) }
+	sort.SliceStable(sorted, func(a, b int) bool {
+		if mag(sorted[a]) != mag(sorted[b]) {
+			return mag(sorted[a]) < mag(sorted[b])
+		}
+		return len(sorted[a]) < len(sorted[b]) || (len(sorted[a]) == len(sorted[b]) && sorted[a] < sorted[b])
+	})
 	i := 0
-	for _, v := range intBoundaries {
+	for _, v := range sorted {
 		i++
 		byGroup := i%2 == 0
-		cs = append(cs, c11Case(c11In{"hi", []c11Arg{ka(v, !byGroup)}}))
-		cs = append(cs, c11Case(c11In{"expbucket", []c11Arg{ka(v, byGroup)}}))
+		add(c11In{"hi", []c11Arg{ka(v, !byGroup)}})
+		add(c11In{"expbucket", []c11Arg{ka(v, byGroup)}})
 		for _, s := range []string{"1", "3", "50", "1000", "9223372036854775807"} {
 			if (i+len(s))%3 == 0 {
-				cs = append(cs, c11Case(c11In{"bucket", []c11Arg{ka(v, byGroup), ka(s, true)}}))
+				add(c11In{"bucket", []c11Arg{ka(v, byGroup), ka(s, true)}})
 			}
 			if (i+len(s))%7 == 0 {
-				cs = append(cs, c11Case(c11In{"bucketrange", []c11Arg{ka(v, !byGroup), ka(s, true)}}))
+				add(c11In{"bucketrange", []c11Arg{ka(v, !byGroup), ka(s, true)}})
 			}
 		}
 	}
-	for j, v := range intBoundaries {
+	for j, v := range sorted {
 		x, _ := atoi64(v)
 		if x <= -(1<<53) || x >= 1<<53 {
 			continue
@@ -1018,14 +1103,24 @@ func c11Sweep(r *Rng) []Case {
 		if j%3 != 0 {
 			ds = append(ds, ka(prec, true))
 		}
-		cs = append(cs, c11Case(c11In{"downscale", ds}))
+		add(c11In{"downscale", ds})
 		if x >= 0 {
-			cs = append(cs, c11Case(c11In{[]string{"bytesize", "bytesizesi"}[j%2], ds}))
+			add(c11In{[]string{"bytesize", "bytesizesi"}[j%2], ds})
+		}
+	}
+	// precision bound of round / bytesize / bytesizesi / downscale / percent, both sides
+	for _, pr := range []string{"1099", "1100", "1101", "1102", "2000", "9223372036854775807"} {
+		for _, fn := range []string{"round", "bytesize", "bytesizesi", "downscale", "percent"} {
+			val := "12345.678"
+			if fn != "round" && fn != "percent" {
+				val = "123456789"
+			}
+			add(c11In{fn, []c11Arg{ka(val, len(pr)%2 == 0), ka(pr, true)}})
 		}
 	}
 	for _, s := range []string{"", "\"", ",", "\r", "\n", "a,b", "a\"b", " a ", "\"\"", "a\r\nb", ",,", "\x00", "\xff\"", "plain"} {
-		cs = append(cs, c11Case(c11In{"csv", []c11Arg{ka(s, false)}}))
-		cs = append(cs, c11Case(c11In{"csv", []c11Arg{ka("x", true), ka(s, false), ka("", true)}}))
+		add(c11In{"csv", []c11Arg{ka(s, false)}})
+		add(c11In{"csv", []c11Arg{ka("x", true), ka(s, false), ka("", true)}})
 	}
 	return cs
 }
@@ -1033,6 +1128,7 @@ func c11Sweep(r *Rng) []Case {
 func c11Gen(r *Rng, n int, tier string) []Case {
 	cases := c11Sweep(r)
 	base := len(cases)
+	skipped := 0
 	for len(cases) < base+n {
 		sp := &specs[(len(cases)-base)%len(specs)]
 		if r.Chance(1, 3) {
@@ -1045,7 +1141,15 @@ func c11Gen(r *Rng, n int, tier string) []Case {
 		if len(args) == 0 {
 			continue
 		}
-		cases = append(cases, c11Case(c11In{Fn: sp.name, Args: args}))
+		in := c11In{Fn: sp.name, Args: args}
+		if c11Skip(in) {
+			skipped++
+			if skipped > 20*n+1000 { // every helper hangs: give up instead of looping
+				break
+			}
+			continue
+		}
+		cases = append(cases, c11Case(in))
 	}
 	return cases
 }
@@ -1072,7 +1176,9 @@ func main() {
 			"boundary pools (all int64 boundaries, 10^k and 10^k+-1, step^k, negatives, zero, non-numbers, float specials, " +
 			"strings with quotes/commas/CR/LF/NUL/Unicode spaces/invalid UTF-8); 1 in 14 calls has a wrong arity; a " +
 			"deterministic sweep covers hi/expbucket/bucket/bucketrange over the whole integer boundary set and csv over " +
-			"every special character. Non-trivial: the output is not an error marker, or an argument came from a match group. " +
+			"every special character (boundary values by increasing magnitude, int64 extremes last). Every call runs on its own " +
+			"goroutine with a 2 s limit: the outcome ok/panic/hang is part of the observable, a panic or hang fails the property; after a hang " +
+			"further calls of the same helper and argument class (arity, sign and digit count of integer arguments) are skipped. Non-trivial: the output is not an error marker, or an argument came from a match group. " +
 			"Distinct: by (function, argument values, constant/group).",
 		Gen:    c11Gen,
 		Replay: c11Replay,
